@@ -145,6 +145,36 @@ static void prop(Ctx &c) {
         close(fd); c.label("authenticated-header-mutants");
     }
 
+    // length pin vs crafted leads: the stored header-size field is replaced by values that make the total header length
+    // differ from the pin by a multiple of 2^32 / 2^31 / 2^16 (any width the comparison might be done in), by +-1, or equal it
+    // through a non-canonical (padded) encoding.  Only the lead decision is judged (the header behind such a lead is absent).
+    {
+        Bytes tcode; ref::ci_put(tcode, (uint64_t)T);
+        auto craft = [&](uint64_t hdr_field, size_t pad_to) {
+            Bytes f(file.begin(), file.begin() + 5); f.insert(f.end(), tcode.begin(), tcode.end());
+            if (pad_to) ref::ci_put_padded(f, hdr_field, pad_to); else ref::ci_put(f, hdr_field);
+            f.insert(f.end(), h.header_digest.begin(), h.header_digest.end());
+            size_t lead = f.size(); f.insert(f.end(), file.begin() + h.lead_size, file.end()); return std::make_pair(f, lead);
+        };
+        static const uint64_t deltas[] = {1ull << 32, 2ull << 32, 3ull << 32, 1ull << 31, 1ull << 33, 1ull << 16, 1ull << 40, 1ull << 62, 0xffffffffull, 0x100000001ull, 1, 0};
+        uint64_t field0 = h.total_size - h.lead_size;
+        for (uint64_t dlt : deltas) for (int mode = 0; mode < 3; mode++) {
+            // mode 0: stored total = P + dlt exactly (lead growth compensated); mode 1: field = field0 + dlt (total additionally grows by the longer encoding); mode 2: padded encoding of the original value + dlt
+            uint64_t P = h.total_size; uint64_t fieldv = field0 + dlt; size_t pad = 0;
+            if (mode == 0) { Bytes probe; ref::ci_put(probe, fieldv); Bytes orig; ref::ci_put(orig, field0); size_t grow = probe.size() - orig.size(); if (fieldv < grow) continue; fieldv -= grow; Bytes again; ref::ci_put(again, fieldv); if (again.size() != probe.size()) continue; }
+            if (mode == 2) { Bytes probe; ref::ci_put(probe, fieldv); pad = std::min<size_t>(10, probe.size() + 1 + c.draw(2)); }
+            auto cf = craft(fieldv, pad); uint64_t stored_total = (uint64_t)cf.second + fieldv;
+            for (int api = 0; api < 2; api++) {
+                int fd = lib::mkfd(cf.first); zckCtx *z = zck_create(); bool acc = false;
+                if (zck_init_adv_read(z, fd) && zck_set_ioption(z, ZCK_VAL_HEADER_LENGTH, (ssize_t)P)) acc = api ? zck_validate_lead(z) : zck_read_lead(z);
+                zck_free(&z); close(fd); evals++;
+                bool model = stored_total == P;
+                if (acc != model) { c.extra_evals = evals; c.fail(acc ? "lead-accepted" : "lead-rejected", std::string(api ? "zck_validate_lead" : "zck_read_lead") + (acc ? " accepted" : " rejected") + " a lead whose stored total header length is " + std::to_string(stored_total) + " (header-size field " + std::to_string(fieldv) + (pad ? ", padded encoding" : "") + ", lead " + std::to_string(cf.second) + " bytes) under pinned length " + std::to_string(P)); }
+            }
+        }
+        c.label("crafted-length-leads");
+    }
+
     // exhaustive: every byte value at every position of the exact digest string
     if (c.rarely(3) || c.tier) {
         c.label("exhaustive-digest-string");
